@@ -1343,3 +1343,67 @@ def cacheid(tier, seed, ci, nc, count=600):
 
 
 STREAMS['cacheid'] = cacheid
+
+
+def readsig(tier, seed, ci, nc, count=4000):
+    """the string layer of support (Model/ReadSig.lean): for every signature of the universe, its native text — read_sig and
+    s() in all eight option combinations — and `pieces` against str(inspect.Signature); then texts nobody would write:
+    random piece lists (chevrons, several slashes and stars, duplicates, defaults anywhere)"""
+    rng = _rng(seed, 'readsig', ci)
+    univ = U('ab', 2) if tier == 'quick' else U('abc', 3)
+
+    def native(ps):
+        out, prev = [], None
+        for (n, k, d, a) in ps:
+            if prev == 'po' and k != 'po':
+                out.append(('S',))
+            if k == 'ko' and prev not in ('vp', 'ko'):
+                out.append(('B',))
+            out.append(({'vp': 's1', 'vk': 's2'}.get(k, 'p'), n, a, d))
+            prev = k
+        if prev == 'po':
+            out.append(('S',))
+        return tuple(out)
+
+    def chevrons(ps):
+        return tuple(('c', n, a, d) if k == 'po' else ({'vp': 's1', 'vk': 's2'}.get(k, 'p'), n, a, d) for (n, k, d, a) in ps)
+
+    def gen():
+        for j, ps0 in enumerate(univ):
+            for variant in range(3):
+                # defaults: distinct tokens (0 = None among them); annotations: none / alternate / all
+                ps = tuple((p[0], p[1], None if p[2] is None else ((3 + i) if (i + j) % 4 else 0),
+                            None if variant == 0 else (40 + i if (variant == 2 or i % 2 == 0) else None))
+                           for i, p in enumerate(ps0))
+                if variant == 0 or j % 3 == 0:
+                    yield ('pieces', tuple(core.P(n, k, d, a) for (n, k, d, a) in ps))
+                texts = [native(ps)]
+                if any(p[1] == 'po' for p in ps):
+                    texts.append(chevrons(ps))
+                for pcs in texts:
+                    for ua, upo, ukw in itertools.product((0, 1), repeat=3):
+                        yield ('readsig', ua, upo, ukw, pcs)
+                        yield ('stext', ua, upo, ukw, pcs)
+        names = ['a', 'b', 'c', 'd', 'args', 'kwargs']
+        for _ in range(count):
+            n = rng.randint(0, 6)
+            pcs = []
+            for _i in range(n):
+                r = rng.random()
+                if r < 0.10:
+                    pcs.append(('S',))
+                elif r < 0.20:
+                    pcs.append(('B',))
+                else:
+                    tag = rng.choice(['p', 'p', 'p', 'p', 'c', 's1', 's2'])
+                    nm = rng.choice(names[:4] if tag in ('p', 'c') or rng.random() < 0.2 else names[4:])
+                    a = rng.choice([None, None, 40, 41])
+                    d = rng.choice([None, None, 0, 3, 4]) if tag in ('p', 'c') or rng.random() < 0.05 else None
+                    pcs.append((tag, nm, a, d))
+            ua, upo, ukw = rng.randint(0, 1), rng.randint(0, 1), rng.randint(0, 1)
+            yield ('readsig', ua, upo, ukw, tuple(pcs))
+            yield ('stext', ua, upo, ukw, tuple(pcs))
+    return _slice(gen(), ci, nc)
+
+
+STREAMS['readsig'] = readsig
